@@ -142,7 +142,7 @@ def unary(t, full):
 
 def universe(tier):
     L1 = [prim(p) for p in PRIMS] + [prim(n) for n in NZ] + [UNIT, PH_U8, PH_STR, RFULL, STRING, BOXSTR]
-    derived_leaves = [inst(n) for n in ["P1", "Z0", "Z16", "P64", "NT", "T3", "ZN", "ZA", "ZB", "ZR", "EZ", "EU", "D1", "D1Z", "DN", "DV", "DT", "DU", "DZ", "RAW", "E1", "E2", "N1"]]
+    derived_leaves = [inst(n) for n in ["P1", "Z0", "Z16", "P64", "NT", "T3", "ZN", "ZA", "ZB", "ZR", "EZ", "EU", "ED", "D1", "D1Z", "DN", "DV", "DT", "DU", "DZ", "RAW", "E1", "E2", "N1"]]
     L2 = [prim(p) for p in ["u8", "u16", "u32", "u64", "u128", "bool", "char", "f64"]] + [UNIT, prim("NonZeroU16"), STRING, PH_U8]
     L2 += [inst(n) for n in ["P1", "Z0", "Z16", "D1", "E1", "T3"]]
     terms = []
